@@ -398,6 +398,20 @@ fn run_op(c: &mut Ctx, op: &Value) -> Value {
             c.scheds.insert(op["name"].as_str().unwrap().to_string(), s);
             j
         }
+        "neighbors" => {
+            // the real local-search neighbourhood with the production parameters of build_local_search_solver
+            use rapid_solve::heuristics::common::ParallelNeighborhood;
+            use rayon::iter::ParallelIterator;
+            use solver::local_search::neighborhood::swaps::SwapInfo;
+            use solver::local_search::neighborhood::RSSchedParallelNeighborhood;
+            use solver::local_search::ScheduleWithInfo;
+            let s = c.scheds[op["schedule"].as_str().unwrap()].clone();
+            let nb = RSSchedParallelNeighborhood::new(Some(rapid_time::Duration::new("3:00:00")), Some(rapid_time::Duration::new("0:10:00")), nw.clone());
+            let swi = ScheduleWithInfo::new(s, SwapInfo::NoSwap, "base".to_string());
+            let mut texts: Vec<String> = nb.neighbors_of(&swi).map(|x| x.get_print_text().to_string()).collect();
+            texts.sort();
+            json!({"candidates": texts.len(), "texts": texts})
+        }
         "schedule_op" => {
             let s = c.scheds[op["schedule"].as_str().unwrap()].clone();
             let what = op["what"].as_str().unwrap();
